@@ -165,9 +165,10 @@ reg("C06", "exploration",
 reg("C08", "exploration",
     "bounded-exhaustive enumeration of scope-grammar and overload programs, differential against clang's JSON AST, hundreds of programs per run",
     "All trees of <=3 scopes plus all 4-scope chains (thorough: all 4-scope programs, then 5-scope until the deadline) over 9 scope kinds x declaration "
-    "variants x all use forms, with and without a global x, C subset as C; all overload sets of size <=3 of 12 parameter lists x 12 arguments. Every "
+    "variants x all use forms, with and without a global x, C subset as C; all overload sets of size <=3 of 12 parameter lists x 12 arguments; all two-parameter overload sets (<=3 over 16 "
+    "lists plus size 4 over 9 lists; thorough <=4 over 16) x 25 argument pairs. Every "
     "linked use or call must name clang's declaration; distinct clang declarations never share a varId.",
-    "Small-scope; one variable name throughout; unlinked uses not judged. Trusted: clang 14, byte-offset position mapping. Four known findings.")
+    "Small-scope; one variable name throughout; unlinked uses not judged. Trusted: clang 14, byte-offset position mapping. Six known findings.")
 reg("C11", "exploration",
     "bounded-exhaustive enumeration of a preprocessing grammar, differential against gcc -E as a conforming reference, many renamed independent units per process",
     "Every unit of Gpp (1-2 macro definitions from 38 forms incl. #, ##, variadic, self/mutual reference x 15 use forms; 9 #if/#ifdef forms x "
@@ -209,8 +210,8 @@ reg("C33", "exploration",
     "Distinguishing sets are finite representatives; cases the doc comment does not decide are compared compiled vs interpreted only. Three known findings.")
 reg("C35", "exploration",
     "bounded-exhaustive program enumeration through --clang --dump on the ASan+UBSan build, with the C14 invariants and clang's own references as oracle",
-    "Scope corpus with <=3 scopes (thorough: plus 4-scope chains), all 1-operator expression functions (thorough: 2-operator), 102 feature snippets, as "
-    "C and C++. No crash or sanitizer report; where no internal error is reported, the dump invariants hold and every linked use names clang's declaration.",
+    "Scope corpus with <=3 scopes (thorough: plus 4-scope chains), all 1-operator expression functions (thorough: 2-operator), 319 one-kind / one-feature translation units "
+    "(one per clang statement / expression / declaration kind, each its own file), as C and C++. No crash or sanitizer report; where no internal error is reported, the dump invariants hold and every linked use names clang's declaration.",
     "Import token positions are approximate, so judging is conservative. Internal errors are exempt as the statement says.")
 
 reg("C07", "exploration",
